@@ -472,7 +472,7 @@ def run(ctx):
                     if not any(s.startswith(('EXC', 'TYPE')) for s in impl['y2h_' + u]['scalar']) else 'n/a'})
     ctx.coverage['rule'] = ('degrees: every multiple of 45 in [-1080,1080]; %s of the grid k/64 over that interval; 4 nextafter neighbours on each side of every multiple of 90 in it '
                             'and of 0/90/180/270 + 360k for k = +-10, +-1000, 12345, -2912, +-2^20; +-2^k for k=-60..60; 2^100..2^1023, DBL_MAX; denormals and DBL_MIN; +-0; '
-                            'uniform and log-uniform random magnitudes up to 1e6.  Large magnitudes (1e5..1e6 rad, to 6e7 deg, neighbours of 2*pi*k for k to 159154).  Composed arrays (all in range / all far / only wrap neighbours / one foreign element first, middle, last / interleaved) vs scalars.  Argument forms: Python int/bool, numpy int8..int64/uint8/bool scalars and arrays, 0-d arrays, lists/tuples (like arrays or TypeError/ValueError), masked arrays, float32/float16 (range and closeness in their own precision), positional/keyword/int/numpy-bool deg flag and its default; np.errstate raise/ignore/warn; NaN/inf elements (NaN out, neighbours untouched); earlier results re-checked at the end.  Array calls at lengths 0..262145 (to 2^21+1 thorough) around powers of two, 1-D and (n/8, 8), compared bit-for-bit with the scalar results; call histories on one array object (in-place changes of the input and of earlier results between calls, alternating units and functions, released/re-created arrays) compared with the scalar calls.  Array calling conventions (input bit-identical after the call, result not sharing memory with it, shape, repeatability, int arrays, array round trips reusing the original object) on ~280 inputs per unit as float64 1-D / strided view / 2-D / transposed view / 0-d / 1-element / read-only, float32, int64, list.  radians: the same with multiples of pi/4, neighbours of k*pi/2 computed three ways '
+                            'uniform and log-uniform random magnitudes up to 1e6.  Large magnitudes (1e5..1e6 rad, to 6e7 deg, neighbours of 2*pi*k for k to 159154).  Composed arrays (all in range / all far / only wrap neighbours / one foreign element first, middle, last / interleaved) vs scalars.  Argument forms: Python int/bool, numpy int8..int64/uint8/bool scalars and arrays, 0-d arrays, lists/tuples (like arrays or TypeError/ValueError), masked arrays, float32/float16 (range and closeness in their own precision), positional/keyword/int/numpy-bool deg flag and its default; np.errstate raise/ignore/warn; NaN/inf elements (NaN out, neighbours untouched); earlier results re-checked at the end.  Array shapes: all (a, b) with a, b in 0..5, (k, N) / (N, k) for k = 1..4, 3-D / 4-D blocks, zero-length axes, C / Fortran / transposed - shape kept, elements equal the scalar results.  Array calls at lengths 0..262145 (to 2^21+1 thorough) around powers of two, 1-D and (n/8, 8), compared bit-for-bit with the scalar results; call histories on one array object (in-place changes of the input and of earlier results between calls, alternating units and functions, released/re-created arrays) compared with the scalar calls.  Array calling conventions (input bit-identical after the call, result not sharing memory with it, shape, repeatability, int arrays, array round trips reusing the original object) on ~280 inputs per unit as float64 1-D / strided view / 2-D / transposed view / 0-d / 1-element / read-only, float32, int64, list.  radians: the same with multiples of pi/4, neighbours of k*pi/2 computed three ways '
                             '(k*math.pi/2, k*(math.pi/2), correctly rounded k*pi/2), grid step 1/%d over [-19,19].  Each input is evaluated by both functions as Python float, '
                             'numpy scalar, 1-D array and strided 2-D array, compared with the exact SPEC (range exactly; closeness within the per-input bound proved for the model, %d-ulp-at-scale for round trips), '
                             'and bit-for-bit with the PrimFloat model.  A case is distinct by (function, unit, input bits).'
